@@ -99,7 +99,7 @@ theorem encodeTree_spec (σ : Sem) (hdot : σ.dotall = true) (cap : Bool) (sup :
   · -- only
     simp only [Bool.and_eq_true, Bool.or_eq_true, Bool.not_eq_eq_eq_not, Bool.not_true] at hok
     obtain ⟨⟨rfl, rfl⟩, hr⟩ := hok
-    by_cases hs : (hasRoot && sup.isNone) = true
+    by_cases hs : (hasRoot && (sup.isNone || sup == some Pos.first || sup == some Pos.only)) = true
     · simp only [hs, ↓reduceIte]
       simp only [Bool.and_eq_true] at hs
       obtain ⟨rfl, _⟩ := hs
